@@ -214,3 +214,136 @@ def conform_family(modname, tier, jobs, loops=("asyncio", "asyncio-eager", "uvlo
             total += n
             bad.extend(b)
     return total, bad
+
+
+# ---------------------------------------------------------------------------------------
+# engine C histories on the real loops
+# ---------------------------------------------------------------------------------------
+
+
+def run_real_history(model, hist, loopkind):
+    """Replay a history of single-event macro-steps on a real loop: each event is injected when
+    all actor tasks are blocked."""
+    import json
+
+    _state["n"] = 0
+    _state["salt"] = 1
+    _state["tasks"] = []
+    ctl = _RealCtl()
+    prog = model.program()
+
+    def factory():
+        if loopkind == "uvloop":
+            import uvloop
+            lp = uvloop.new_event_loop()
+        else:
+            lp = asyncio.new_event_loop()
+        lp.set_task_factory(_plain_factory)
+        return lp
+
+    world = World(_LoopView(None), ctl, {"loop": loopkind})
+    result = {"stuck": False, "snapshots": []}
+
+    async def main():
+        loop = asyncio.get_running_loop()
+        world.loop = _LoopView(loop)
+        it = dsl.Interp(world, prog)
+        world.interp = it
+        prog_task = asyncio.ensure_future(it.main_fn()())
+        me = asyncio.current_task()
+
+        async def quiescent():
+            idle = 0
+            for _ in range(5000):
+                await asyncio.sleep(0)
+                ok = True
+                for t in asyncio.all_tasks():
+                    if t is me or t.done():
+                        continue
+                    w = t._fut_waiter
+                    if w is None or w.done():
+                        ok = False
+                        break
+                idle = idle + 1 if ok else 0
+                if idle >= 4:
+                    return True
+            return False
+
+        for step in hist:
+            if not await quiescent():
+                result["stuck"] = True
+                break
+            snap = model.snapshot(world, it)
+            world.ev("q", len(result["snapshots"]), snap[1]["obs"])
+            result["snapshots"].append(snap[0])
+            ev = step[0]
+            fn, enabled = model.event_action(it, ev)
+            if enabled is not None and not enabled():
+                result["stuck"] = True
+                break
+            name = json.dumps(ev)
+            world.ev("env", name)
+
+            def run(fn=fn, name=name):
+                world.ev("envrun", name)
+                fn()
+            loop.call_soon(run)
+        if not result["stuck"] and await quiescent():
+            snap = model.snapshot(world, it)
+            world.ev("q", len(result["snapshots"]), snap[1]["obs"])
+            result["snapshots"].append(snap[0])
+        world.ev("teardown?")
+        done = world.objs.get("done")
+        if done is not None:
+            done.set()
+        try:
+            await asyncio.wait_for(prog_task, 5)
+        except BaseException:  # noqa: BLE001
+            pass
+
+    try:
+        anyio.run(main, backend_options={"loop_factory": factory})
+    except BaseException:  # noqa: BLE001
+        pass
+    ts = getattr(_aio, "_task_states", None)
+    for t in _state["tasks"]:
+        asyncio._unregister_task(t)
+        if ts is not None:
+            try:
+                ts.pop(t, None)
+            except Exception:
+                pass
+    _state["tasks"] = []
+    return world.log, result
+
+
+def conform_histories(args):
+    """The canonical states reached on the real loops must equal the virtual loop's."""
+    from . import bfs
+
+    modname, clsname, params, hists, loops = args
+    model = getattr(importlib.import_module(modname), clsname)(**params)
+    n = 0
+    bad = []
+    for hist in hists:
+        if any(len(step) > 1 for step in hist):
+            continue  # in-cycle placements cannot be steered on a real loop
+        r = bfs.replay(model, hist)
+        want = [s[0] for s in r.snapshots]
+        for lk in loops:
+            log, res = run_real_history(model, hist, lk)
+            n += 1
+            viol = []
+            try:
+                class _R:
+                    pass
+                rr = _R()
+                rr.log = [e for e in log if e[2] != "teardown?"]
+                viol = model.check(rr)
+            except Exception as e:  # noqa: BLE001
+                viol = [f"monitor crashed: {e}"]
+            if res["stuck"] or res["snapshots"] != want or viol:
+                bad.append(f"{clsname}{params} history {hist} on {lk}: states differ from the "
+                           f"virtual loop or the reference automaton rejects the real-loop log "
+                           f"({viol[:1]})")
+    return n, bad
